@@ -38,7 +38,7 @@ class CycleNode(Node):
 
     def __str__(self) -> str:
         assert isinstance(self.token, TagToken)
-        name = f"{self.name.as_source()}: " if self.name else ""
+        name = f"{self.name.as_source()}: " if self.name is not None else ""
         items = ", ".join(str(i) for i in self.items)
         return f"{{%{self.token.wc[0]} cycle {name}{items} {self.token.wc[1]}%}}"
 
